@@ -152,6 +152,36 @@ CHECKS["C11"] = (
     "DESIGN.md §3 C11",
 )
 
+CHECKS["C13"] = (
+    "exploration",
+    "bounded-exhaustive enumeration of a language of JSON specifications against a reference interpreter of the id semantics",
+    "All JSON specifications derivable from a grammar over 8 registered classes with <=4 objects, <=2 top-level "
+    "elements, every slot inline or by reference and every id assignment up to renaming (1.1 M documents quick, "
+    "39.6 M thorough; the count is asserted against the closed form) are loaded exactly as torchtree.main loads "
+    "them and compared with an independent reference interpreter: ill-formed (duplicate id at any depth, "
+    "forward / dangling / cyclic reference) => JSONParseError; well-formed => alias relation by object identity, "
+    "registry contents, numpy values, and updates through every holder observed by every other. Every "
+    "well-formed document is also checked under every single decoration (comment keys, ignored objects, type "
+    "aliases), every pair of list-level decorations and one plate wrapping; all json_factory helpers x ~410 "
+    "argument forms are compared with directly constructed twins.",
+    "Multi-plate documents, range references and classes outside the grammar are not covered; three from_json argument forms that never load (full=<int>, eye=<list>, view indices=<list>) are left out of the factory menu as outside the property.",
+    "DESIGN.md §3 C13",
+)
+CHECKS["C19"] = (
+    "exploration",
+    "bounded-exhaustive enumeration of the CLI option space (full core product + complete pairwise covering of the remaining switches), each emitted JSON loaded and judged",
+    "Every torchtree-cli command line of the full model-defining core (4 sub-commands x 9 models x categories x "
+    "invariant x clock x heights x 11 tree priors = 9648; thorough x2 datings) is run in-process, its JSON loaded "
+    "as `torchtree --dry` does and judged; every tree/clock core is additionally crossed with every "
+    "model/initialisation switch, and 59 switches are covered pairwise (complete, measured) on representative "
+    "cores. Per emitted configuration: it loads; the target and its gradient are finite; requested initial "
+    "values are honoured; and, per block of moved leaves with a complete prior, the listed Jacobian entries "
+    "equal log|det| of the autograd Jacobian of the forward map from the unconstrained leaves to the prior "
+    "variables, evaluated on a fresh load at a generic displaced point.",
+    "Forward maps of transforms trusted (C06/C07); command lines the CLI rejects or dies on are counted, not judged; algorithms are constructed, not run. 16 open findings listed in known_findings.json.",
+    "DESIGN.md §3 C19",
+)
+
 NOT_APPLICABLE = {}
 
 PENDING_REASON = ("check not built yet in this revision (planned in DESIGN.md §3); "
